@@ -73,6 +73,7 @@ func fieldClauses(label string, t types.Type, src, dst string) []copyClause {
 	if n, ok := t.(*types.Named); ok && n.Obj().Name() == "Address" {
 		// addresses are immutable values by the property's wording and may be shared
 		add("len", fmt.Sprintf("len(%s) == len(%s)", dst, src))
+		add("steps-equal", fmt.Sprintf("len(%s) == len(%s) && forall(j, 0, len(%s), %s[j] == %s[j])", dst, src, src, dst, src))
 		return cs
 	}
 	switch u := t.Underlying().(type) {
